@@ -355,6 +355,23 @@ def fresh_timer_arms(fns):
     return out
 
 
+def receiver_fns(prog):
+    """(accept-loop function, per-connection runner) of the network Receiver, found by what they do - the function that calls
+    TcpListener::accept and the function that calls MessageHandler::dispatch - not by their names."""
+    run = runner = None
+    for f in prog.fns.values():
+        if f.derived or not (f.self_ty or "").startswith("network::receiver::Receiver"):
+            continue
+        for n in f.nodes():
+            if n["k"] in ("call", "mcall"):
+                ps = callee_paths(n) + ([n.get("fn")] if n.get("fn") else [])
+                if any(p and p.endswith("TcpListener::accept") for p in ps):
+                    run = f
+                if any(p == "network::receiver::MessageHandler::dispatch" for p in ps):
+                    runner = f
+    return run, runner
+
+
 class AuxReport:
     """Minimal Report stand-in used to re-evaluate another property's rules and fold selected results."""
 
